@@ -35,7 +35,7 @@ func failMsg(format string, a ...interface{}) *commonpb.Status {
 // ---------------------------------------------------------------------------------------------------------
 // handshake / misc
 
-func (s *Server) Connect(ctx context.Context, req *milvuspb.ConnectRequest) (*milvuspb.ConnectResponse, error) {
+func (s *svc) Connect(ctx context.Context, req *milvuspb.ConnectRequest) (*milvuspb.ConnectResponse, error) {
 	db := routeDB(ctx, "")
 	s.cat.Lock()
 	strict := s.strictConnect
@@ -53,18 +53,18 @@ func (s *Server) Connect(ctx context.Context, req *milvuspb.ConnectRequest) (*mi
 	}, nil
 }
 
-func (s *Server) GetVersion(ctx context.Context, req *milvuspb.GetVersionRequest) (*milvuspb.GetVersionResponse, error) {
+func (s *svc) GetVersion(ctx context.Context, req *milvuspb.GetVersionRequest) (*milvuspb.GetVersionResponse, error) {
 	return &milvuspb.GetVersionResponse{Status: ok(), Version: "fakemilvus-2.4"}, nil
 }
 
-func (s *Server) CheckHealth(ctx context.Context, req *milvuspb.CheckHealthRequest) (*milvuspb.CheckHealthResponse, error) {
+func (s *svc) CheckHealth(ctx context.Context, req *milvuspb.CheckHealthRequest) (*milvuspb.CheckHealthResponse, error) {
 	return &milvuspb.CheckHealthResponse{Status: ok(), IsHealthy: true}, nil
 }
 
 // ---------------------------------------------------------------------------------------------------------
 // databases
 
-func (s *Server) ListDatabases(ctx context.Context, req *milvuspb.ListDatabasesRequest) (*milvuspb.ListDatabasesResponse, error) {
+func (s *svc) ListDatabases(ctx context.Context, req *milvuspb.ListDatabasesRequest) (*milvuspb.ListDatabasesResponse, error) {
 	s.cat.Lock()
 	defer s.cat.Unlock()
 	names := make([]string, 0, len(s.dbs))
@@ -81,7 +81,7 @@ func (s *Server) ListDatabases(ctx context.Context, req *milvuspb.ListDatabasesR
 	return resp, nil
 }
 
-func (s *Server) CreateDatabase(ctx context.Context, req *milvuspb.CreateDatabaseRequest) (*commonpb.Status, error) {
+func (s *svc) CreateDatabase(ctx context.Context, req *milvuspb.CreateDatabaseRequest) (*commonpb.Status, error) {
 	s.cat.Lock()
 	defer s.cat.Unlock()
 	if err := s.createDBLocked(req.GetDbName(), req.GetProperties()); err != nil {
@@ -90,7 +90,7 @@ func (s *Server) CreateDatabase(ctx context.Context, req *milvuspb.CreateDatabas
 	return ok(), nil
 }
 
-func (s *Server) DropDatabase(ctx context.Context, req *milvuspb.DropDatabaseRequest) (*commonpb.Status, error) {
+func (s *svc) DropDatabase(ctx context.Context, req *milvuspb.DropDatabaseRequest) (*commonpb.Status, error) {
 	s.cat.Lock()
 	defer s.cat.Unlock()
 	name := req.GetDbName()
@@ -108,7 +108,7 @@ func (s *Server) DropDatabase(ctx context.Context, req *milvuspb.DropDatabaseReq
 	return ok(), nil
 }
 
-func (s *Server) DescribeDatabase(ctx context.Context, req *milvuspb.DescribeDatabaseRequest) (*milvuspb.DescribeDatabaseResponse, error) {
+func (s *svc) DescribeDatabase(ctx context.Context, req *milvuspb.DescribeDatabaseRequest) (*milvuspb.DescribeDatabaseResponse, error) {
 	s.cat.Lock()
 	defer s.cat.Unlock()
 	d, err := s.dbLocked(req.GetDbName())
@@ -118,7 +118,7 @@ func (s *Server) DescribeDatabase(ctx context.Context, req *milvuspb.DescribeDat
 	return &milvuspb.DescribeDatabaseResponse{Status: ok(), DbName: d.name, DbID: d.id, CreatedTimestamp: d.created, Properties: cloneKVs(d.props)}, nil
 }
 
-func (s *Server) AlterDatabase(ctx context.Context, req *milvuspb.AlterDatabaseRequest) (*commonpb.Status, error) {
+func (s *svc) AlterDatabase(ctx context.Context, req *milvuspb.AlterDatabaseRequest) (*commonpb.Status, error) {
 	s.cat.Lock()
 	defer s.cat.Unlock()
 	d, err := s.dbLocked(req.GetDbName())
@@ -132,7 +132,7 @@ func (s *Server) AlterDatabase(ctx context.Context, req *milvuspb.AlterDatabaseR
 // ---------------------------------------------------------------------------------------------------------
 // collections
 
-func (s *Server) HasCollection(ctx context.Context, req *milvuspb.HasCollectionRequest) (*milvuspb.BoolResponse, error) {
+func (s *svc) HasCollection(ctx context.Context, req *milvuspb.HasCollectionRequest) (*milvuspb.BoolResponse, error) {
 	s.cat.Lock()
 	defer s.cat.Unlock()
 	d, err := s.dbLocked(routeDB(ctx, req.GetDbName()))
@@ -142,7 +142,7 @@ func (s *Server) HasCollection(ctx context.Context, req *milvuspb.HasCollectionR
 	return &milvuspb.BoolResponse{Status: ok(), Value: d.colls[req.GetCollectionName()] != nil}, nil
 }
 
-func (s *Server) ShowCollections(ctx context.Context, req *milvuspb.ShowCollectionsRequest) (*milvuspb.ShowCollectionsResponse, error) {
+func (s *svc) ShowCollections(ctx context.Context, req *milvuspb.ShowCollectionsRequest) (*milvuspb.ShowCollectionsResponse, error) {
 	s.cat.Lock()
 	defer s.cat.Unlock()
 	d, err := s.dbLocked(routeDB(ctx, req.GetDbName()))
@@ -192,7 +192,7 @@ func (s *Server) ShowCollections(ctx context.Context, req *milvuspb.ShowCollecti
 	return resp, nil
 }
 
-func (s *Server) DescribeCollection(ctx context.Context, req *milvuspb.DescribeCollectionRequest) (*milvuspb.DescribeCollectionResponse, error) {
+func (s *svc) DescribeCollection(ctx context.Context, req *milvuspb.DescribeCollectionRequest) (*milvuspb.DescribeCollectionResponse, error) {
 	s.cat.Lock()
 	defer s.cat.Unlock()
 	db := routeDB(ctx, req.GetDbName())
@@ -225,7 +225,7 @@ func (s *Server) DescribeCollection(ctx context.Context, req *milvuspb.DescribeC
 	}, nil
 }
 
-func (s *Server) CreateCollection(ctx context.Context, req *milvuspb.CreateCollectionRequest) (*commonpb.Status, error) {
+func (s *svc) CreateCollection(ctx context.Context, req *milvuspb.CreateCollectionRequest) (*commonpb.Status, error) {
 	s.cat.Lock()
 	defer s.cat.Unlock()
 	d, err := s.dbLocked(routeDB(ctx, req.GetDbName()))
@@ -274,7 +274,7 @@ func (s *Server) CreateCollection(ctx context.Context, req *milvuspb.CreateColle
 	return ok(), nil
 }
 
-func (s *Server) DropCollection(ctx context.Context, req *milvuspb.DropCollectionRequest) (*commonpb.Status, error) {
+func (s *svc) DropCollection(ctx context.Context, req *milvuspb.DropCollectionRequest) (*commonpb.Status, error) {
 	s.cat.Lock()
 	defer s.cat.Unlock()
 	d, err := s.dbLocked(routeDB(ctx, req.GetDbName()))
@@ -286,7 +286,7 @@ func (s *Server) DropCollection(ctx context.Context, req *milvuspb.DropCollectio
 	return ok(), nil
 }
 
-func (s *Server) AlterCollection(ctx context.Context, req *milvuspb.AlterCollectionRequest) (*commonpb.Status, error) {
+func (s *svc) AlterCollection(ctx context.Context, req *milvuspb.AlterCollectionRequest) (*commonpb.Status, error) {
 	s.cat.Lock()
 	defer s.cat.Unlock()
 	c, err := s.collLocked(routeDB(ctx, req.GetDbName()), req.GetCollectionName())
@@ -297,7 +297,7 @@ func (s *Server) AlterCollection(ctx context.Context, req *milvuspb.AlterCollect
 	return ok(), nil
 }
 
-func (s *Server) RenameCollection(ctx context.Context, req *milvuspb.RenameCollectionRequest) (*commonpb.Status, error) {
+func (s *svc) RenameCollection(ctx context.Context, req *milvuspb.RenameCollectionRequest) (*commonpb.Status, error) {
 	s.cat.Lock()
 	defer s.cat.Unlock()
 	d, err := s.dbLocked(routeDB(ctx, req.GetDbName()))
@@ -327,7 +327,7 @@ func (s *Server) RenameCollection(ctx context.Context, req *milvuspb.RenameColle
 // ---------------------------------------------------------------------------------------------------------
 // partitions
 
-func (s *Server) ShowPartitions(ctx context.Context, req *milvuspb.ShowPartitionsRequest) (*milvuspb.ShowPartitionsResponse, error) {
+func (s *svc) ShowPartitions(ctx context.Context, req *milvuspb.ShowPartitionsRequest) (*milvuspb.ShowPartitionsResponse, error) {
 	s.cat.Lock()
 	defer s.cat.Unlock()
 	c, err := s.collLocked(routeDB(ctx, req.GetDbName()), req.GetCollectionName())
@@ -365,7 +365,7 @@ func (s *Server) ShowPartitions(ctx context.Context, req *milvuspb.ShowPartition
 	return resp, nil
 }
 
-func (s *Server) HasPartition(ctx context.Context, req *milvuspb.HasPartitionRequest) (*milvuspb.BoolResponse, error) {
+func (s *svc) HasPartition(ctx context.Context, req *milvuspb.HasPartitionRequest) (*milvuspb.BoolResponse, error) {
 	s.cat.Lock()
 	defer s.cat.Unlock()
 	c, err := s.collLocked(routeDB(ctx, req.GetDbName()), req.GetCollectionName())
@@ -375,7 +375,7 @@ func (s *Server) HasPartition(ctx context.Context, req *milvuspb.HasPartitionReq
 	return &milvuspb.BoolResponse{Status: ok(), Value: c.part(req.GetPartitionName()) != nil}, nil
 }
 
-func (s *Server) CreatePartition(ctx context.Context, req *milvuspb.CreatePartitionRequest) (*commonpb.Status, error) {
+func (s *svc) CreatePartition(ctx context.Context, req *milvuspb.CreatePartitionRequest) (*commonpb.Status, error) {
 	s.cat.Lock()
 	defer s.cat.Unlock()
 	c, err := s.collLocked(routeDB(ctx, req.GetDbName()), req.GetCollectionName())
@@ -395,7 +395,7 @@ func (s *Server) CreatePartition(ctx context.Context, req *milvuspb.CreatePartit
 	return ok(), nil
 }
 
-func (s *Server) DropPartition(ctx context.Context, req *milvuspb.DropPartitionRequest) (*commonpb.Status, error) {
+func (s *svc) DropPartition(ctx context.Context, req *milvuspb.DropPartitionRequest) (*commonpb.Status, error) {
 	s.cat.Lock()
 	defer s.cat.Unlock()
 	c, err := s.collLocked(routeDB(ctx, req.GetDbName()), req.GetCollectionName())
@@ -452,7 +452,7 @@ func (s *Server) checkLoadableLocked(c *collEntry) error {
 	return nil
 }
 
-func (s *Server) LoadCollection(ctx context.Context, req *milvuspb.LoadCollectionRequest) (*commonpb.Status, error) {
+func (s *svc) LoadCollection(ctx context.Context, req *milvuspb.LoadCollectionRequest) (*commonpb.Status, error) {
 	s.cat.Lock()
 	defer s.cat.Unlock()
 	c, err := s.collLocked(routeDB(ctx, req.GetDbName()), req.GetCollectionName())
@@ -467,7 +467,7 @@ func (s *Server) LoadCollection(ctx context.Context, req *milvuspb.LoadCollectio
 	return ok(), nil
 }
 
-func (s *Server) ReleaseCollection(ctx context.Context, req *milvuspb.ReleaseCollectionRequest) (*commonpb.Status, error) {
+func (s *svc) ReleaseCollection(ctx context.Context, req *milvuspb.ReleaseCollectionRequest) (*commonpb.Status, error) {
 	s.cat.Lock()
 	defer s.cat.Unlock()
 	c, err := s.collLocked(routeDB(ctx, req.GetDbName()), req.GetCollectionName())
@@ -481,7 +481,7 @@ func (s *Server) ReleaseCollection(ctx context.Context, req *milvuspb.ReleaseCol
 	return ok(), nil
 }
 
-func (s *Server) LoadPartitions(ctx context.Context, req *milvuspb.LoadPartitionsRequest) (*commonpb.Status, error) {
+func (s *svc) LoadPartitions(ctx context.Context, req *milvuspb.LoadPartitionsRequest) (*commonpb.Status, error) {
 	s.cat.Lock()
 	defer s.cat.Unlock()
 	c, err := s.collLocked(routeDB(ctx, req.GetDbName()), req.GetCollectionName())
@@ -503,7 +503,7 @@ func (s *Server) LoadPartitions(ctx context.Context, req *milvuspb.LoadPartition
 	return ok(), nil
 }
 
-func (s *Server) ReleasePartitions(ctx context.Context, req *milvuspb.ReleasePartitionsRequest) (*commonpb.Status, error) {
+func (s *svc) ReleasePartitions(ctx context.Context, req *milvuspb.ReleasePartitionsRequest) (*commonpb.Status, error) {
 	s.cat.Lock()
 	defer s.cat.Unlock()
 	c, err := s.collLocked(routeDB(ctx, req.GetDbName()), req.GetCollectionName())
@@ -553,7 +553,7 @@ func loadedLocked(c *collEntry, parts []string) (bool, error) {
 	return true, nil
 }
 
-func (s *Server) GetLoadingProgress(ctx context.Context, req *milvuspb.GetLoadingProgressRequest) (*milvuspb.GetLoadingProgressResponse, error) {
+func (s *svc) GetLoadingProgress(ctx context.Context, req *milvuspb.GetLoadingProgressRequest) (*milvuspb.GetLoadingProgressResponse, error) {
 	s.cat.Lock()
 	defer s.cat.Unlock()
 	c, err := s.collLocked(routeDB(ctx, req.GetDbName()), req.GetCollectionName())
@@ -570,7 +570,7 @@ func (s *Server) GetLoadingProgress(ctx context.Context, req *milvuspb.GetLoadin
 	return &milvuspb.GetLoadingProgressResponse{Status: ok(), Progress: 100, RefreshProgress: 100}, nil
 }
 
-func (s *Server) GetLoadState(ctx context.Context, req *milvuspb.GetLoadStateRequest) (*milvuspb.GetLoadStateResponse, error) {
+func (s *svc) GetLoadState(ctx context.Context, req *milvuspb.GetLoadStateRequest) (*milvuspb.GetLoadStateResponse, error) {
 	s.cat.Lock()
 	defer s.cat.Unlock()
 	d, err := s.dbLocked(routeDB(ctx, req.GetDbName()))
@@ -594,7 +594,7 @@ func (s *Server) GetLoadState(ctx context.Context, req *milvuspb.GetLoadStateReq
 // ---------------------------------------------------------------------------------------------------------
 // flush
 
-func (s *Server) Flush(ctx context.Context, req *milvuspb.FlushRequest) (*milvuspb.FlushResponse, error) {
+func (s *svc) Flush(ctx context.Context, req *milvuspb.FlushRequest) (*milvuspb.FlushResponse, error) {
 	s.cat.Lock()
 	defer s.cat.Unlock()
 	db := routeDB(ctx, req.GetDbName())
@@ -614,18 +614,18 @@ func (s *Server) Flush(ctx context.Context, req *milvuspb.FlushRequest) (*milvus
 	return resp, nil
 }
 
-func (s *Server) GetFlushState(ctx context.Context, req *milvuspb.GetFlushStateRequest) (*milvuspb.GetFlushStateResponse, error) {
+func (s *svc) GetFlushState(ctx context.Context, req *milvuspb.GetFlushStateRequest) (*milvuspb.GetFlushStateResponse, error) {
 	return &milvuspb.GetFlushStateResponse{Status: ok(), Flushed: true}, nil
 }
 
-func (s *Server) GetFlushAllState(ctx context.Context, req *milvuspb.GetFlushAllStateRequest) (*milvuspb.GetFlushAllStateResponse, error) {
+func (s *svc) GetFlushAllState(ctx context.Context, req *milvuspb.GetFlushAllStateRequest) (*milvuspb.GetFlushAllStateResponse, error) {
 	return &milvuspb.GetFlushAllStateResponse{Status: ok(), Flushed: true}, nil
 }
 
 // ---------------------------------------------------------------------------------------------------------
 // indexes
 
-func (s *Server) CreateIndex(ctx context.Context, req *milvuspb.CreateIndexRequest) (*commonpb.Status, error) {
+func (s *svc) CreateIndex(ctx context.Context, req *milvuspb.CreateIndexRequest) (*commonpb.Status, error) {
 	s.cat.Lock()
 	defer s.cat.Unlock()
 	c, err := s.collLocked(routeDB(ctx, req.GetDbName()), req.GetCollectionName())
@@ -694,7 +694,7 @@ func (c *collEntry) findIndexes(field, name string) []*indexEntry {
 	return out
 }
 
-func (s *Server) DescribeIndex(ctx context.Context, req *milvuspb.DescribeIndexRequest) (*milvuspb.DescribeIndexResponse, error) {
+func (s *svc) DescribeIndex(ctx context.Context, req *milvuspb.DescribeIndexRequest) (*milvuspb.DescribeIndexResponse, error) {
 	s.cat.Lock()
 	defer s.cat.Unlock()
 	c, err := s.collLocked(routeDB(ctx, req.GetDbName()), req.GetCollectionName())
@@ -713,7 +713,7 @@ func (s *Server) DescribeIndex(ctx context.Context, req *milvuspb.DescribeIndexR
 	return resp, nil
 }
 
-func (s *Server) GetIndexState(ctx context.Context, req *milvuspb.GetIndexStateRequest) (*milvuspb.GetIndexStateResponse, error) {
+func (s *svc) GetIndexState(ctx context.Context, req *milvuspb.GetIndexStateRequest) (*milvuspb.GetIndexStateResponse, error) {
 	s.cat.Lock()
 	defer s.cat.Unlock()
 	c, err := s.collLocked(routeDB(ctx, req.GetDbName()), req.GetCollectionName())
@@ -726,7 +726,7 @@ func (s *Server) GetIndexState(ctx context.Context, req *milvuspb.GetIndexStateR
 	return &milvuspb.GetIndexStateResponse{Status: ok(), State: commonpb.IndexState_Finished}, nil
 }
 
-func (s *Server) DropIndex(ctx context.Context, req *milvuspb.DropIndexRequest) (*commonpb.Status, error) {
+func (s *svc) DropIndex(ctx context.Context, req *milvuspb.DropIndexRequest) (*commonpb.Status, error) {
 	s.cat.Lock()
 	defer s.cat.Unlock()
 	c, err := s.collLocked(routeDB(ctx, req.GetDbName()), req.GetCollectionName())
@@ -750,7 +750,7 @@ func (s *Server) DropIndex(ctx context.Context, req *milvuspb.DropIndexRequest) 
 	return ok(), nil
 }
 
-func (s *Server) AlterIndex(ctx context.Context, req *milvuspb.AlterIndexRequest) (*commonpb.Status, error) {
+func (s *svc) AlterIndex(ctx context.Context, req *milvuspb.AlterIndexRequest) (*commonpb.Status, error) {
 	s.cat.Lock()
 	defer s.cat.Unlock()
 	c, err := s.collLocked(routeDB(ctx, req.GetDbName()), req.GetCollectionName())
@@ -770,7 +770,7 @@ func (s *Server) AlterIndex(ctx context.Context, req *milvuspb.AlterIndexRequest
 // ---------------------------------------------------------------------------------------------------------
 // users, roles, privileges
 
-func (s *Server) CreateCredential(ctx context.Context, req *milvuspb.CreateCredentialRequest) (*commonpb.Status, error) {
+func (s *svc) CreateCredential(ctx context.Context, req *milvuspb.CreateCredentialRequest) (*commonpb.Status, error) {
 	s.cat.Lock()
 	defer s.cat.Unlock()
 	if req.GetUsername() == "" {
@@ -783,7 +783,7 @@ func (s *Server) CreateCredential(ctx context.Context, req *milvuspb.CreateCrede
 	return ok(), nil
 }
 
-func (s *Server) UpdateCredential(ctx context.Context, req *milvuspb.UpdateCredentialRequest) (*commonpb.Status, error) {
+func (s *svc) UpdateCredential(ctx context.Context, req *milvuspb.UpdateCredentialRequest) (*commonpb.Status, error) {
 	s.cat.Lock()
 	defer s.cat.Unlock()
 	if _, has := s.users[req.GetUsername()]; !has {
@@ -793,7 +793,7 @@ func (s *Server) UpdateCredential(ctx context.Context, req *milvuspb.UpdateCrede
 	return ok(), nil
 }
 
-func (s *Server) DeleteCredential(ctx context.Context, req *milvuspb.DeleteCredentialRequest) (*commonpb.Status, error) {
+func (s *svc) DeleteCredential(ctx context.Context, req *milvuspb.DeleteCredentialRequest) (*commonpb.Status, error) {
 	s.cat.Lock()
 	defer s.cat.Unlock()
 	if req.GetUsername() == "root" {
@@ -804,7 +804,7 @@ func (s *Server) DeleteCredential(ctx context.Context, req *milvuspb.DeleteCrede
 	return ok(), nil
 }
 
-func (s *Server) ListCredUsers(ctx context.Context, req *milvuspb.ListCredUsersRequest) (*milvuspb.ListCredUsersResponse, error) {
+func (s *svc) ListCredUsers(ctx context.Context, req *milvuspb.ListCredUsersRequest) (*milvuspb.ListCredUsersResponse, error) {
 	s.cat.Lock()
 	defer s.cat.Unlock()
 	resp := &milvuspb.ListCredUsersResponse{Status: ok()}
@@ -815,7 +815,7 @@ func (s *Server) ListCredUsers(ctx context.Context, req *milvuspb.ListCredUsersR
 	return resp, nil
 }
 
-func (s *Server) CreateRole(ctx context.Context, req *milvuspb.CreateRoleRequest) (*commonpb.Status, error) {
+func (s *svc) CreateRole(ctx context.Context, req *milvuspb.CreateRoleRequest) (*commonpb.Status, error) {
 	s.cat.Lock()
 	defer s.cat.Unlock()
 	name := req.GetEntity().GetName()
@@ -829,7 +829,7 @@ func (s *Server) CreateRole(ctx context.Context, req *milvuspb.CreateRoleRequest
 	return ok(), nil
 }
 
-func (s *Server) DropRole(ctx context.Context, req *milvuspb.DropRoleRequest) (*commonpb.Status, error) {
+func (s *svc) DropRole(ctx context.Context, req *milvuspb.DropRoleRequest) (*commonpb.Status, error) {
 	s.cat.Lock()
 	defer s.cat.Unlock()
 	name := req.GetRoleName()
@@ -860,7 +860,7 @@ func (s *Server) DropRole(ctx context.Context, req *milvuspb.DropRoleRequest) (*
 	return ok(), nil
 }
 
-func (s *Server) OperateUserRole(ctx context.Context, req *milvuspb.OperateUserRoleRequest) (*commonpb.Status, error) {
+func (s *svc) OperateUserRole(ctx context.Context, req *milvuspb.OperateUserRoleRequest) (*commonpb.Status, error) {
 	s.cat.Lock()
 	defer s.cat.Unlock()
 	if !s.roles[req.GetRoleName()] {
@@ -893,7 +893,7 @@ func sameGrant(a, b *milvuspb.GrantEntity) bool {
 		a.GetGrantor().GetPrivilege().GetName() == b.GetGrantor().GetPrivilege().GetName()
 }
 
-func (s *Server) OperatePrivilege(ctx context.Context, req *milvuspb.OperatePrivilegeRequest) (*commonpb.Status, error) {
+func (s *svc) OperatePrivilege(ctx context.Context, req *milvuspb.OperatePrivilegeRequest) (*commonpb.Status, error) {
 	s.cat.Lock()
 	defer s.cat.Unlock()
 	e := req.GetEntity()
@@ -922,7 +922,7 @@ func (s *Server) OperatePrivilege(ctx context.Context, req *milvuspb.OperatePriv
 	return ok(), nil
 }
 
-func (s *Server) SelectRole(ctx context.Context, req *milvuspb.SelectRoleRequest) (*milvuspb.SelectRoleResponse, error) {
+func (s *svc) SelectRole(ctx context.Context, req *milvuspb.SelectRoleRequest) (*milvuspb.SelectRoleResponse, error) {
 	s.cat.Lock()
 	defer s.cat.Unlock()
 	resp := &milvuspb.SelectRoleResponse{Status: ok()}
@@ -952,7 +952,7 @@ func (s *Server) SelectRole(ctx context.Context, req *milvuspb.SelectRoleRequest
 	return resp, nil
 }
 
-func (s *Server) SelectUser(ctx context.Context, req *milvuspb.SelectUserRequest) (*milvuspb.SelectUserResponse, error) {
+func (s *svc) SelectUser(ctx context.Context, req *milvuspb.SelectUserRequest) (*milvuspb.SelectUserResponse, error) {
 	s.cat.Lock()
 	defer s.cat.Unlock()
 	resp := &milvuspb.SelectUserResponse{Status: ok()}
@@ -980,7 +980,7 @@ func (s *Server) SelectUser(ctx context.Context, req *milvuspb.SelectUserRequest
 	return resp, nil
 }
 
-func (s *Server) SelectGrant(ctx context.Context, req *milvuspb.SelectGrantRequest) (*milvuspb.SelectGrantResponse, error) {
+func (s *svc) SelectGrant(ctx context.Context, req *milvuspb.SelectGrantRequest) (*milvuspb.SelectGrantResponse, error) {
 	s.cat.Lock()
 	defer s.cat.Unlock()
 	resp := &milvuspb.SelectGrantResponse{Status: ok()}
@@ -1040,7 +1040,7 @@ func callSeq(ctx context.Context) int64 {
 	return -1
 }
 
-func (s *Server) Insert(ctx context.Context, req *milvuspb.InsertRequest) (*milvuspb.MutationResult, error) {
+func (s *svc) Insert(ctx context.Context, req *milvuspb.InsertRequest) (*milvuspb.MutationResult, error) {
 	s.cat.Lock()
 	defer s.cat.Unlock()
 	db := routeDB(ctx, req.GetDbName())
@@ -1087,7 +1087,7 @@ func (s *Server) Insert(ctx context.Context, req *milvuspb.InsertRequest) (*milv
 	return &milvuspb.MutationResult{Status: ok(), IDs: ids, SuccIndex: succ, Acknowledged: true, InsertCnt: int64(n), Timestamp: s.nextTsLocked()}, nil
 }
 
-func (s *Server) Delete(ctx context.Context, req *milvuspb.DeleteRequest) (*milvuspb.MutationResult, error) {
+func (s *svc) Delete(ctx context.Context, req *milvuspb.DeleteRequest) (*milvuspb.MutationResult, error) {
 	s.cat.Lock()
 	defer s.cat.Unlock()
 	db := routeDB(ctx, req.GetDbName())
